@@ -103,6 +103,91 @@ def unit(arg_):
     return out
 
 
+def schematic_unit(name):
+    '''Termination lemma for the propositional fragment (structural, not
+    solver-decided): (i) for every compound node shape (operator, negated,
+    designation) over letters the real tableau of that single node terminates
+    on its own and leaves only literal nodes unticked; (ii) the rule output is
+    uniform in the operands: expanding the shape over compound operands adds
+    exactly the substitution instances of what it adds over letters.  By
+    induction on the sentence, every propositional tableau then terminates
+    without limits.'''
+    from pytableaux.lang import Atomic, Operator
+    from pytableaux.logics import registry
+    from pytableaux.proof import Tableau, sdwnode
+    from engine.tabutil import reset_order
+    registry.import_all()
+    logic = registry(name)
+    modal = bool(logic.Meta.modal)
+    w0 = 0 if modal else None
+    fde = any(getattr(r, 'designation', None) is not None for r in logic.Rules.all())
+    desigs = (True, False) if fde else (None,)
+    A, B, C, D = (Atomic(i, 0) for i in range(4))
+    sub = {A: C & D, B: ~C}
+    out = dict(logic=name, shapes=0, bad=[], max_steps=0)
+
+    def subst(s):
+        t = type(s).__name__
+        if t == 'Atomic':
+            return sub.get(s, s)
+        return s.operator(*[subst(x) for x in s.operands])
+
+    def is_literal(s):
+        t = type(s).__name__
+        return t == 'Atomic' or (t == 'Operated' and s.operator.name == 'Negation'
+                                 and type(s.lhs).__name__ == 'Atomic')
+    for op in Operator:
+        if op.name in ('Possibility', 'Necessity'):
+            continue
+        for neg in (False, True):
+            base = op(A) if op.arity == 1 else op(A, B)
+            s = ~base if neg else base
+            if op.name == 'Negation' and not neg:
+                continue   # a negated letter is a literal; double negation is the neg=True case
+            for d in desigs:
+                out['shapes'] += 1
+                reset_order()
+                tab = Tableau(logic)
+                b = tab.branch()
+                b.append(sdwnode(s, d, w0))
+                tab.build()
+                steps = len(tab.history)
+                out['max_steps'] = max(out['max_steps'], steps)
+                if tab.premature or any(prover.has_quit_flag(x) for x in tab):
+                    out['bad'].append(f'{s} d={d}: schematic tableau did not complete on its own')
+                    continue
+                for br in tab:
+                    for n in br:
+                        sn = n.get('sentence')
+                        if sn is not None and not br.is_ticked(n) and not is_literal(sn) and not br.closed:
+                            out['bad'].append(f'{s} d={d}: compound node {sn} left unexpanded')
+                # uniformity: first step on the substituted node
+                reset_order()
+                t1 = Tableau(logic)
+                b1 = t1.branch()
+                b1.append(sdwnode(s, d, w0))
+                e1 = t1.step()
+                reset_order()
+                t2 = Tableau(logic)
+                b2 = t2.branch()
+                b2.append(sdwnode(subst(s), d, w0))
+                e2 = t2.step()
+                if e1 is None or e2 is None:
+                    if (e1 is None) != (e2 is None):
+                        out['bad'].append(f'{s} d={d}: a rule applies over letters but not over compound operands')
+                    continue
+                def prof(n, f):
+                    sn = n.get('sentence')
+                    rest = tuple(sorted((k, str(v)) for k, v in n.items() if k != 'sentence'))
+                    return (f(sn) if sn is not None else None, rest)
+                g1 = [[prof(n, subst) for n in g] for g in e1.target['adds']]
+                g2 = [[prof(n, lambda x: x) for n in g] for g in e2.target['adds']]
+                if e1.rule.name != e2.rule.name or g1 != g2:
+                    out['bad'].append(f'{s} d={d}: expansion is not uniform in the operands '
+                                      f'({e1.rule.name}: {g1} vs {e2.rule.name}: {g2})')
+    return out
+
+
 def plan(ctx):
     from pytableaux.logics import registry
     registry.import_all()
@@ -136,8 +221,21 @@ def plan(ctx):
 def run(ctx):
     rep = Report('C03', 'model_checking')
     units = plan(ctx)
+    from pytableaux.logics import registry
+    registry.import_all()
+    names = sorted(registry(n).Meta.name for n in registry.all())
     with mp.Pool(ctx.jobs) as pool:
+        ar = pool.map_async(schematic_unit, names, chunksize=2)
         results = pool.map(unit, units, chunksize=1)
+        sres = ar.get()
+    schem = 0
+    longest = 0
+    for r in sres:
+        schem += r['shapes']
+        longest = max(longest, r['max_steps'])
+        for b in r['bad'][:3]:
+            rep.violation(f'C03|{r["logic"]}|termination-lemma|{b.split(":")[0]}', f'{r["logic"]}: {b}',
+                          dict(kind='schematic', logic=r['logic']))
     stats = Stats()
     shapes = runs = paths = valid = invalid = 0
     samples = []
@@ -162,6 +260,9 @@ def run(ctx):
     rep.coverage = dict(
         states=paths, transitions=runs, traces_validated_against_impl=0, samples=samples,
         shapes_times_logics=shapes, z3_valid=valid, z3_invalid=invalid,
+        termination_lemma=dict(schematic_shapes=schem, longest_schematic_tableau=longest,
+                               argument='structural induction: every compound shape over letters terminates and '
+                                        'rule output is uniform in the operands (concrete runs, not solver-decided)'),
         bounds=dict(family='P(0), P(1) complete, 100 of P(2) per logic by seed, 342 depth-1 pairs (default options)' if ctx.quick
                     else 'P(0), P(1) complete, 6000 of P(2) and 1500 of P(3) per logic by seed',
                     letters='<= 3', premises='<= 2', options='both optimisation flags symbolic (4 paths) on P(0), P(1) (thorough: everywhere); default otherwise',
@@ -178,6 +279,9 @@ def run(ctx):
 
 def replay(data):
     'Concrete run and brute-force validity with the plain-Python evaluator.'
+    if data.get('kind') == 'schematic':
+        r = schematic_unit(data['logic'])
+        return bool(r['bad']), f'{data["logic"]}: {r["bad"][:2]}'
     from pytableaux.lang import Argument
     from pytableaux.logics import registry
     from spec import tables as spec
